@@ -251,7 +251,10 @@ class Env:
         self.delivered_canon = []
 
     async def _conn_body(self, connected):
-        for _ in range(getattr(self, "conn_sub_slow", 0)):
+        slow = getattr(self, "conn_sub_slow", 0)
+        if isinstance(slow, tuple):
+            slow = slow[1] if connected else slow[0]          # (passes spent on "disconnected", passes spent on "connected")
+        for _ in range(slow):
             await asyncio.sleep(0)            # an application whose connection callback takes a few loop passes
         if connected and self.conn_sub_sends:
             # like the API objects: the connection subscriber sends a request from inside the notification
@@ -546,10 +549,12 @@ class Env:
                 else:
                     self.sock.unsubcribe_on_message_received(self.msg_sub)
             elif k == "subslow":
-                self.conn_sub_slow = int(op[1])
+                self.conn_sub_slow = int(op[1]) if len(op) < 3 else (int(op[1]), int(op[2]))
             elif k == "subsend":
                 _, sid, kind, policy = op
                 self.conn_sub_sends.append((sid, kind, policy))
+            elif k == "failnext":
+                net.fail_first_write = net.fail_first_once = True       # only the next ONE connection is half-open
             elif k == "failfirst":
                 net.fail_first_write = bool(op[1])
             elif k == "blockfirst":
